@@ -13,5 +13,5 @@ CONSTANTS
     AcquireIgnoresTimeout = TRUE
     BroadcastAll = TRUE
 SPECIFICATION MonSpec
-INVARIANTS Bounded NoSelfOverlap NoneRunningAtReturn MonStartOnlyWhenQuiet MonAllReturned MonCancelReaches MonCallersBalanced
+INVARIANTS Bounded NoSelfOverlap NoneRunningAtReturn MonStartOnlyWhenQuiet MonAllReturned MonCancelReaches MonCallersBalanced MonNoLateStart
 CHECK_DEADLOCK FALSE
